@@ -87,6 +87,13 @@ def gen_cases(ctx):
                 dt = rng.choice([1e-8, -3e-9, 2.5e-10, 1e-12])
                 mk("evolve_vs_steps", n, terms, dt, order=order, k=rng.choice([2, 3, 7, 20]))
                 mk("evolve", n, terms, dt, order=order, k=rng.choice([2, 5, 40]))
+    # terms that were used once (and cloned) before their last factor was added
+    for n in (2, 3):
+        for order in (1, 2):
+            terms = [dict(rand_string(rng, n, allow_empty=False), coef=[float2bits(rng.uniform(-1, 1)), float2bits(0.0)]) for _ in range(3)]
+            for t in terms:
+                if len(t["ops"]) >= 2: t["used_after"] = [1, n]
+            mk("step", n, terms, 0.3, order=order); mk("evolve_vs_steps", n, terms, 0.2, order=order, k=2)
     # Hamiltonians that are not empty but whose weights are all exactly 0 / -0 (the start of a sweep, ising_1d_uniform with mu = 0) or far
     # below the square root of the smallest normal number: they evolve (as the identity, up to e^{-i c t}), they are not an error
     for n in (1, 2, 3):
